@@ -20,6 +20,7 @@ import (
 //   - failed visibly: every party that cannot proceed got an error from its
 //     constructor or from Send/Recv;
 //   - anything else (a party still blocked) is a silent hang.
+//
 // Required: never a hang, crash or foreign window; a fault-free attempt (no
 // loss, duplicate or stale packet) must succeed. Keep-alive is enabled as in
 // the deployed configuration (a peer whose FIN was lost is detected by it).
